@@ -89,6 +89,8 @@ type ScriptConn struct {
 	wdeadline           time.Time
 	// EOFWithData: the Read that hands out the last bytes of a finished stream returns them together with io.EOF
 	EOFWithData bool
+	// CloseDelay: Close takes this long
+	CloseDelay time.Duration
 	// Addr, if set, is the remote address reported (several connections may report the same one)
 	Addr string
 	// CloseErr, if set, is what Close returns although the connection is closed all the same - as tls.Conn.Close does
@@ -284,6 +286,13 @@ func (c *ScriptConn) Close() error {
 	c.closes++
 	if c.closed {
 		return c.CloseErr
+	}
+	if c.CloseDelay > 0 {
+		// a Close that takes its time (tls.Conn waits up to 5 s for its close_notify to be written)
+		d := c.CloseDelay
+		c.mu.Unlock()
+		time.Sleep(d)
+		c.mu.Lock()
 	}
 	c.closed = true
 	c.Log.Add(c.ID, "close", "", 0)
